@@ -405,7 +405,7 @@ func callNameOf(x *TX, call *ssa.Call) string {
 	if callee == nil {
 		return "dyn"
 	}
-	if callee.Signature.Recv() != nil && len(common.Args) > 0 && isKeeperType(common.Args[0].Type()) {
+	if callee.Signature.Recv() != nil && len(common.Args) > 0 && isKeeperType(common.Args[0].Type()) && knownFuncs[funcName(callee)] {
 		return "k." + callee.Name()
 	}
 	return funcName(callee)
